@@ -701,6 +701,15 @@ class BaseCfgLine(object):
         return bool(len([ll for cobj in offspring if cobj.re_search(ll)]))
 
     # On BaseCfgLine()
+    @logger.catch(reraise=True)
+    def _index_in_confobj(self):
+        """Return the index of this exact object in its ConfigList(), or None if it is no longer a member."""
+        for idx, obj in enumerate(self.confobj.data):
+            if obj is self:
+                return idx
+        return None
+
+    # On BaseCfgLine()
     @junos_unsupported
     @logger.catch(reraise=True)
     def insert_before(self, insertstr: str=None):
@@ -714,11 +723,19 @@ class BaseCfgLine(object):
             raise NotImplementedError(error)
 
         retval = None
-        if isinstance(insertstr, str) is True:
-            retval = self.confobj.insert_before(exist_val=self.text, new_val=insertstr)
+        if isinstance(insertstr, BaseCfgLine) is True:
+            insertstr = insertstr.text
 
-        elif isinstance(insertstr, BaseCfgLine) is True:
-            retval = self.confobj.insert_before(exist_val=self.text, new_val=insertstr.text)
+        # If this object is still a member of the ConfigList(), insert
+        # exactly one line at its own position; only fall back to matching
+        # on the line text when the object is stale (i.e. it was replaced
+        # by a commit)
+        this_index = self._index_in_confobj()
+        if isinstance(insertstr, str) is True and this_index is not None:
+            retval = self.confobj.insert(this_index, insertstr)
+
+        elif isinstance(insertstr, str) is True:
+            retval = self.confobj.insert_before(exist_val=self.text, new_val=insertstr)
 
         else:
             raise ValueError(error)
@@ -743,13 +760,18 @@ class BaseCfgLine(object):
         if self.confobj.debug >= 1:
             logger.debug("Inserting '{}' after '{}'".format(insertstr, self))
 
-        if isinstance(insertstr, str) is True:
+        if isinstance(insertstr, BaseCfgLine):
+            # Handle insertion of a configuration line obj such as IOSCfgLine()
+            insertstr = insertstr.text
+
+        # See the comment in insert_before()
+        this_index = self._index_in_confobj()
+        if isinstance(insertstr, str) is True and this_index is not None:
+            retval = self.confobj.insert(this_index + 1, insertstr)
+
+        elif isinstance(insertstr, str) is True:
             # Handle insertion of a plain-text line
             retval = self.confobj.insert_after(exist_val=self.text, new_val=insertstr)
-
-        elif isinstance(insertstr, BaseCfgLine):
-            # Handle insertion of a configuration line obj such as IOSCfgLine()
-            retval = self.confobj.insert_after(exist_val=self.text, new_val=insertstr.text)
 
         else:
             logger.error(error)
